@@ -529,8 +529,8 @@ func TestCheck(t *testing.T) {
 			r.Floor("seq_empty_answers", int64(nSeq)/2)
 			r.Floor("seq_lookups_through_cname", int64(nSeq)*4)
 			r.Floor("seq_rcode_episodes", int64(nSeq)/3)
-			r.Floor("seq_failed_resolves_rcode_header-6-15", int64(nSeq)/4)
-			r.Floor("seq_failed_resolves_rcode_extended-16-and-up", int64(nSeq)/5)
+			r.Floor("seq_failed_resolves_rcode_header-6-15", int64(nSeq)/5)
+			r.Floor("seq_failed_resolves_rcode_extended-16-and-up", int64(nSeq)/6)
 			r.Floor("seq_refetched_after_rcode_failure", int64(nSeq)/8)
 			r.Floor("seq_results_checked_as_sorted_copy_of_unsorted_answer", int64(nSeq)*2)
 			r.Floor("conc_failure_windows_rcode_outside_1_5", int64(nConc)/4)
